@@ -224,6 +224,8 @@ def run(rep, pdb, tier):
         check_argmax(rep, pdb, mac, "step-solver", P(2), F(P(0), "rows"), 1, lambda c: P(1))
     from .c01 import check_gauss
     check_gauss(rep, pdb, "step-solver/elimination")
+    from .c01 import check_early_returns
+    check_early_returns(rep, pdb, "step-solver/early-return", names=("partial_pivot", "gauss_with_pivot", "backsolve", "solve_basic"))
     # the residual test max_residual = f.norm_inf(): no component of the residual is ignored
     from .c15 import check_norm_inf
     check_norm_inf(rep, pdb, "vector::Vector<f64>::norm_inf", "residual-norm/f64")
